@@ -26,11 +26,11 @@ PID = "C14"
 DISTRS = ("lognorm", "gamma")
 
 
-def expected_rows(n, rows=None):
+def expected_rows(n, rows=None, ks=None):
     """[(k, mean, var, source)]: TLC's rows when it has them, else the mirror"""
     out = []
     c = None
-    for k in range(2, n + 1):
+    for k in (range(2, n + 1) if ks is None else ks):
         if rows is not None and (n, k) in rows:
             out.append((k, rows[(n, k)]["mean"], rows[(n, k)]["var"], "tlc"))
         else:
@@ -39,11 +39,11 @@ def expected_rows(n, rows=None):
     return out
 
 
-def check_n(ctx, n, rows=None, distrs=DISTRS, inst_extra=None):
-    """Real tsdate tables for total sample count n against the exact moments."""
+def check_n(ctx, n, rows=None, distrs=DISTRS, inst_extra=None, ks=None):
+    """Real tsdate tables for total sample count n against the exact moments (all k, or `ks`)."""
     from tsdate import prior
     rtol = pc.coal_rtol(n)
-    exp = expected_rows(n, rows)
+    exp = expected_rows(n, rows, ks)
     inst = {"n": n, "kind": "exact-prior"}
     inst.update(inst_extra or {})
     try:
@@ -64,16 +64,16 @@ def check_n(ctx, n, rows=None, distrs=DISTRS, inst_extra=None):
         if not pc.close(v[k], var, rtol):
             ctx.violation("C14/conditional_coalescent_variance/value", dict(inst, k=k),
                           f"conditional_coalescent_variance({n})[{k}] = {v[k]!r}, exact {float(var)!r} "
-                          f"(= {var} from {src}), rel.err {pc.relerr(v[k], var):.3g}", "moments")
+                          f"(from {src}), rel.err {pc.relerr(v[k], var):.3g}", "moments")
         for d, t in tables.items():
             alpha, beta, m, vv = (float(x) for x in t[k])
             if not pc.close(m, mean, rtol):
                 ctx.violation("C14/add/mean", dict(inst, k=k, distr=d),
-                              f"n={n} k={k}: prior mean {m!r}, exact {float(mean)!r} (= {mean} from {src})",
+                              f"n={n} k={k}: prior mean {m!r}, exact {float(mean)!r} (from {src})",
                               "moments")
             if not pc.close(vv, var, rtol):
                 ctx.violation("C14/add/var", dict(inst, k=k, distr=d),
-                              f"n={n} k={k}: prior var {vv!r}, exact {float(var)!r} (= {var} from {src}), "
+                              f"n={n} k={k}: prior var {vv!r}, exact {float(var)!r} (from {src}), "
                               f"rel.err {pc.relerr(vv, var):.3g}", "moments")
             msg = pc.matched(d, alpha, beta, mean, var, rtol)
             if msg:
@@ -139,7 +139,13 @@ def run(ctx):
         ns = list(range(nmax_tlc + 1, 201)) + sorted(ctx.rng.sample(range(201, 600), 24)) + [600]
     for n in ns:
         check_n(ctx, n, None)
-    ctx.count("largest_n", max(ns))
+    # large n (the statement quantifies "up to a large bound on n"): selected k, where the recursion
+    # over ancestors has the most terms (small k) and at the ends; added after seeded change C14-a
+    big = [1100, 1600] if q else [1100, 1300, 1600, 2500, 4000]
+    for n in big:
+        ks = sorted({2, 3, 5, 17, n // 3, n - 1, n})
+        check_n(ctx, n, None, ks=ks, inst_extra={"ks": ks})
+    ctx.count("largest_n", max(ns + big))
     for n in ([3, 12, 40] if q else [2, 3, 12, 40, 97, 250]):
         check_mrca_approx(ctx, n, approx_n=25 if q else 60, rows=rows)
     ctx.exhaustive = True  # every (n,k) with n <= 150 (quick) / n <= 200 (thorough) is covered
@@ -148,6 +154,9 @@ def run(ctx):
 def replay(ctx, body):
     harness.setup_repo_env(ctx.work)
     inst = body["instance"]
+    if inst.get("kind") == "exact-prior" and inst.get("ks"):
+        check_n(ctx, inst["n"], None, ks=inst["ks"], inst_extra={"ks": inst["ks"]})
+        return
     n = int(inst["n"])
     rows = pc.coalescent_tables(ctx, 2, max(2, min(n, 6))) if n <= 6 else None
     if inst.get("kind") == "approx-mrca":
